@@ -62,6 +62,10 @@ def closures(tier: str) -> List[Dict[str, Any]]:
             ("IMPORT_COREDEFS true declared and used", {"IMPORT_COREDEFS": "true"}, {"import_coredefs": True}, ali)):
         files = {"root.yaml": {"compiler_options": opts, **body}}
         out.append({"files": defx.Program(files).to_json()["files"], "kw": kw, "label": label, "feats": []})
+    # field specs written with blanks inside (the hash is taken from the text as written; the combined file must reproduce it)
+    spaced = {"root.yaml": "constants:\n  N_CH: 4\nstruct_defs:\n  SP:\n    fields:\n      a: int32 [N_CH]\n      b: char[ 16 ]\n      c: double [ 2 ]\n"
+                           "message_defs:\n  SPM:\n    id: 4520\n    fields:\n      s: SP [2]\n      t: uint8[N_CH ]\n      u:   float\n"}
+    out.append({"files": spaced, "kw": {"import_coredefs": False}, "label": "field specs with blanks inside", "feats": []})
     seqs = c04.sequences("quick")[:: 40]
     prog, _ = c04.batch_program(seqs, 2)
     out.append({"files": prog.to_json()["files"], "kw": {}, "label": "packed C04-style program (diamond imports)", "feats": []})
@@ -196,6 +200,49 @@ def roundtrip(src: str, combined: str, cl, work: str) -> List[Dict[str, Any]]:
     return probs
 
 
+def reused_parser_model() -> List[Dict[str, Any]]:
+    """the same closure parsed by a fresh Parser and by one that has a failed (and a successful) parse behind it: same ids, hashes,
+    sizes, layouts, constants - with the core import on, so that files read by the earlier parse are part of the closure"""
+    from pyrtma import parser as PP
+
+    probs = []
+    d = core.scratch_dir("c16p")
+    try:
+        good = defx.Program({"root.yaml": {"imports": ["lib.yaml"], "message_defs": {"GM": {"id": 4530, "fields": {"s": "GS", "n": "int32"}}}},
+                             "lib.yaml": {"constants": {"GK": 3}, "struct_defs": {"GS": {"fields": {"a": "double", "b": "int16[GK]"}}}}})
+        bad = defx.Program({"root.yaml": {"imports": ["lib.yaml"], "message_defs": {"BM": {"id": 4531, "fields": {"s": "NO_SUCH_TYPE"}}}},
+                            "lib.yaml": {"constants": {"BK": 3}}})
+        groot = good.write(os.path.join(d, "good"))
+        broot = bad.write(os.path.join(d, "bad"))
+        ref = defx.sig_parser(defx.parse_model(groot, import_coredefs=True))
+        for history in (("bad",), ("good",), ("bad", "good"), ("bad", "bad")):
+            pr = PP.Parser(import_coredefs=True)
+            for h in list(pr.logger.handlers):
+                pr.logger.removeHandler(h)
+            with contextlib.redirect_stdout(io.StringIO()), contextlib.redirect_stderr(io.StringIO()):
+                for step in history:
+                    try:
+                        pr.parse(broot if step == "bad" else groot)
+                    except PP.ParserError:
+                        pass
+                try:
+                    pr.parse(groot)
+                except Exception as e:
+                    probs.append({"kind": "reused-parser-rejects-the-closure", "history": list(history), "exc": f"{type(e).__name__}: {str(e)[:120]}"})
+                    continue
+            got = defx.sig_parser(pr)
+            for sec in ("MT", "MID", "HID", "constants", "strings"):
+                if got[sec] != ref[sec]:
+                    probs.append({"kind": "reused-parser-model-differs", "history": list(history), "section": sec,
+                                  "missing": sorted(set(ref[sec]) - set(got[sec]))[:4], "extra": sorted(set(got[sec]) - set(ref[sec]))[:4]})
+            if {n: (v["fields"], v["size"], v["hash"], v["id"]) for n, v in got["defs"].items()} != {n: (v["fields"], v["size"], v["hash"], v["id"]) for n, v in ref["defs"].items()}:
+                probs.append({"kind": "reused-parser-model-differs", "history": list(history), "section": "defs",
+                              "missing": sorted(set(ref["defs"]) - set(got["defs"]))[:4], "extra": sorted(set(got["defs"]) - set(ref["defs"]))[:4]})
+    finally:
+        core.rmtree(d)
+    return probs
+
+
 def shipped_core() -> List[Dict[str, Any]]:
     """(3) regenerate the package's core definitions and compare with the shipped module"""
     import pyrtma
@@ -261,6 +308,8 @@ def run(tier: str) -> int:
                               {"module": "vf.checks.c16", "closure": cl, "problem": p}, size=len(json.dumps(cl["files"])))
     for p in shipped_core():
         chk.violation(f"C16:{p['kind']}:{p.get('section', '')}", f"{p}", {"module": "vf.checks.c16", "shipped": True, "problem": p})
+    for p in reused_parser_model():
+        chk.violation(f"C16:{p['kind']}:{p.get('section', '')}", f"{p}", {"module": "vf.checks.c16", "reused_parser": True, "problem": p})
     chk.count("closures", len(cls))
     chk.sample({"closure": cls[0]["label"], "files": list(cls[0]["files"])})
     chk.sample({"closure": cls[-1]["label"], "files": list(cls[-1]["files"])})
@@ -271,6 +320,8 @@ def run(tier: str) -> int:
 def replay(case) -> int:
     if case.get("shipped"):
         probs = shipped_core()
+    elif case.get("reused_parser"):
+        probs = reused_parser_model()
     else:
         probs = run_group((0, [case["closure"]], "thorough"))[0]["problems"]
     hit = [p for p in probs if p["kind"] == case["problem"]["kind"]]
